@@ -64,6 +64,10 @@ def parse_smtlib(text: str):  # noqa: C901
                 comment.append(char)
                 if char == '\n':
                     break
+            if comment[-1] != '\n':
+                # end of input: a comment always carries its line break, so
+                # that it is written and read back unchanged
+                comment.append('\n')
             comment = ''.join(comment)
             if cur_expr is not None:
                 cur_expr.append(Node(comment))
